@@ -295,6 +295,12 @@ func (c *EvalCtx) evalCall(x *SCall) (TV, error) {
 			return TV{Val: SExt(n, v.Val), Ty: t}, nil
 		}
 		return TV{Val: ZExt(n, v.Val), Ty: t}, nil
+	case "atentry":
+		// value of an expression in the pre-state of the innermost enclosing loop
+		if c.loopPre == nil {
+			return TV{}, fmt.Errorf("atentry() used outside a loop invariant")
+		}
+		return c.inState(c.loopPre).eval(x.Args[0])
 	case "heap8":
 		_, h := c.e.scalarHeap(c.st, BVSort(8))
 		return TV{Val: h}, nil
@@ -313,8 +319,8 @@ func (c *EvalCtx) evalCall(x *SCall) (TV, error) {
 			if _, isArr := lf.Type.Underlying().(*types.Array); isArr {
 				continue
 			}
-			_, hn := c.e.scalarHeap(c.st, lf.Sort)
-			_, ho := c.e.scalarHeap(c.old, lf.Sort)
+			_, hn := c.e.scalarHeapT(c.st, lf.Sort, lf.Type)
+			_, ho := c.e.scalarHeapT(c.old, lf.Sort, lf.Type)
 			if hn.T == ho.T {
 				continue
 			}
